@@ -1686,6 +1686,8 @@ func (e *exh) contextsH(fn *ssa.Function, depth, hops int) []*Ctx {
 			nd = depth // bound-method wrappers and thunks do not count as a level
 		} else if hops < 2 && e.passThrough(site) {
 			nd, nh = depth, hops+1
+		} else if e.p.isErrCtor(fn) {
+			nd = depth // an error-constructor helper stands for the Errorf at its call site
 		}
 		for _, cc := range e.contextsH(caller, nd, nh) {
 			if !e.feasible(site.Block(), cc) {
